@@ -190,3 +190,167 @@ def obligations():
         else:
             L.ext['cvxopt.modeling.constraint'] = saved
     return obs
+
+
+# ------------------------------------------------- constraint.__init__
+# constraint(f, ctype): accepted iff ctype is '=' or '<', f is a _function,
+# and f is affine for '=' resp. convex for '<' ("a function accepted as
+# convex (resp. affine) really is"); TypeError otherwise.  The function is
+# stored as it is and the multiplier is a new variable of the constraint's
+# length.
+class CF:
+    abs_object = True
+
+    def __init__(self):
+        self.isfn = z3.Bool('f is a _function')
+        self.affine = z3.Bool('f is affine')
+        self.convex = z3.Bool('f is convex')
+        self.ln = z3.Int('len(f)')
+
+    def abs_method(self, ex, st, name, args, kwargs, n):
+        if name in ('_isaffine', '_isconvex', '_isconcave'):
+            d = ex.decide(st, self.isfn)
+            if d is None:
+                raise NeedFork(self.isfn)
+            if not d:
+                raise PyRaise('AttributeError', name)
+            return B({'_isaffine': self.affine, '_isconvex': self.convex,
+                      '_isconcave': z3.Bool('f is concave')}[name])
+        raise Unsupported('method %s of f' % name)
+
+    def abs_getattr(self, ex, st, attr, n):
+        return core.NOTFOUND
+
+
+class CFType:
+    abs_object = True
+
+    def __init__(self, f):
+        self.f = f
+
+    def abs_is(self, ex, st, o):
+        if isinstance(o, Ext) and o.name == 'cvxopt.modeling._function':
+            return self.f.isfn
+        raise Unsupported('type test of f')
+
+    abs_eq = abs_is
+
+
+class CSelf:
+    abs_object = True
+
+    def abs_getattr(self, ex, st, attr, n):
+        return st.ghost.get('cattrs', {}).get(attr, core.NOTFOUND)
+
+
+def constraint_init_obligations(timeout_ms=10000):
+    tree, src = driver.load_module('modeling.py')
+    obs = []
+
+    def add(oid, kind, status, text, line=0, detail=None):
+        obs.append({'id': 'modeling.py:constraint.__init__:%s:%s' % (kind,
+                                                                     oid),
+                    'kind': kind, 'status': status, 'text': text,
+                    'line': line, 'model': None, 'detail': detail,
+                    'by': ['z3'] if status == 'proved' else []})
+    saved = {k_: L.ext.get(k_) for k_ in ('builtins.type', 'builtins.len',
+                                          'cvxopt.modeling.variable')}
+    saved_setattr = L.setattr
+    type0, len0 = saved['builtins.type'], saved['builtins.len']
+
+    def setattr_(ex, st, base, attr, v, s):
+        if isinstance(base, CSelf):
+            st.ghost['cattrs'] = dict(st.ghost.get('cattrs', {}))
+            st.ghost['cattrs'][attr] = v
+            return
+        return saved_setattr(ex, st, base, attr, v, s)
+
+    def b_type(ex_, st, args, kwargs, n):
+        if len(args) == 1 and isinstance(args[0], CF):
+            return CFType(args[0])
+        return type0(ex_, st, args, kwargs, n)
+
+    def b_len(ex_, st, args, kwargs, n):
+        if isinstance(args[0], CSelf):
+            f = st.ghost.get('cattrs', {}).get('_f')
+            if isinstance(f, CF):
+                return I(f.ln)
+            raise PyRaise('AttributeError', '_f')
+        if isinstance(args[0], CF):
+            return I(args[0].ln)
+        return len0(ex_, st, args, kwargs, n)
+
+    def m_variable(ex_, st, args, kwargs, n):
+        return ('new variable', args[0] if args else None)
+    sink = []
+    try:
+        for ct in ('=', '<', 'other'):
+            ex = core.Executor(tree, 'cvxopt.modeling', L, {'unroll': 8})
+            f = CF()
+
+            def setup(ex_, st, fid, f_, ct=ct, f=f):
+                L.ext.update({'builtins.type': b_type, 'builtins.len': b_len,
+                              'cvxopt.modeling.variable': m_variable})
+                L.setattr = setattr_
+                fr = st.frames[fid]
+                fr['self'] = CSelf()
+                fr['f'] = f
+                fr['ctype'] = ct if ct != 'other' else '>'
+                fr['name'] = ''
+                fr['_function'] = Ext('cvxopt.modeling._function')
+                fr['variable'] = Ext('cvxopt.modeling.variable')
+                st.pc.append(f.ln >= 1)
+                st.ghost['frame_check'] = False
+            ex.find_function('constraint.__init__')
+            try:
+                outs = ex.run_function('constraint.__init__', setup)
+            except Unsupported as e:
+                add('supported', 'constraint-accepts', 'undecided',
+                    'constraint.__init__ is inside the supported subset',
+                    detail=str(e))
+                return obs
+            good = z3.And(z3.BoolVal(ct in ('=', '<')), f.isfn,
+                          f.affine if ct == '=' else f.convex)
+            for o in outs:
+                if o.kind == 'raise':
+                    sink.append((ex, 'constraint-refuses', list(o.st.pc),
+                                 z3.And(z3.BoolVal(o.val[0] == 'TypeError'),
+                                        z3.Not(good)),
+                                 "constraint(f, ctype) is refused only with "
+                                 "TypeError, for a ctype other than '=' / "
+                                 "'<', an f that is not a function, or an f "
+                                 "that is not affine ('=') resp. convex "
+                                 "('<') (%s)" % o.val[0],
+                                 o.val[2] if len(o.val) > 2 else 0))
+                    continue
+                ca = o.st.ghost.get('cattrs', {})
+                mul = ca.get('multiplier')
+                okm = isinstance(mul, tuple) and mul[0] == 'new variable' \
+                    and isinstance(mul[1], I)
+                sink.append((ex, 'constraint-accepts', list(o.st.pc), z3.And(
+                    good, z3.BoolVal(ca.get('_f') is f and ca.get(
+                        '_type') == ct and okm),
+                    mul[1].t == f.ln if okm else z3.BoolVal(False)),
+                    "constraint(f, ctype) is accepted only for a function "
+                    "that is affine ('=') resp. convex ('<'); it stores f "
+                    "and the type, and its multiplier is a new variable of "
+                    "length len(f)", 0))
+    finally:
+        for k_, v_ in saved.items():
+            if v_ is None:
+                L.ext.pop(k_, None)
+            else:
+                L.ext[k_] = v_
+        L.setattr = saved_setattr
+    seen = {}
+    rank = {'proved': 0, 'undecided': 1, 'refuted': 2}
+    for ex, kind, pc, goal, text, line in sink:
+        r = ex.check(pc, [z3.Not(goal)], timeout=timeout_ms)
+        st_ = 'proved' if r == z3.unsat else ('refuted' if r == z3.sat
+                                              else 'undecided')
+        key = (kind, text)
+        if key not in seen or rank[st_] > rank[seen[key][0]]:
+            seen[key] = (st_, line)
+    for i_, ((kind, text), (st_, line)) in enumerate(sorted(seen.items())):
+        add('%s#%d' % (kind, i_), kind, st_, text, line)
+    return obs
